@@ -54,6 +54,9 @@ type mimeGen struct {
 	bigLeaf  int // size of an occasional large leaf (0 = none)
 	nBound   int
 	eightBit bool
+
+	emptyFields bool // sometimes add header fields without a value ("X-Empty-1:" CRLF)
+	topMessage  bool // the message's own content type may be message/rfc822 (its part numbering is ambiguous: callers must not address parts then)
 }
 
 func (g *mimeGen) words(n int) string {
@@ -207,7 +210,7 @@ func (g *mimeGen) part(depth int, top bool, marker string) *mimePart {
 	}
 
 	// A message whose own content type is message/rfc822 has ambiguous part numbering: not generated.
-	if top && kind == 9 {
+	if top && kind == 9 && !(g.topMessage && depth == 0) {
 		kind = 6
 	}
 
@@ -284,6 +287,12 @@ func (g *mimeGen) part(depth int, top bool, marker string) *mimePart {
 		p.Type, p.Sub = "message", "rfc822"
 		p.Embedded = g.message(depth+1, fmt.Sprintf("%s-emb%d", marker, depth))
 		p.Body = p.Embedded.Bytes()
+
+		// a forwarded message usually is an attachment with a name of its own
+		if g.rng.Intn(2) == 0 {
+			p.Disp = []string{"attachment", "inline"}[g.rng.Intn(2)]
+			p.DispParam = append(p.DispParam, [2]string{"filename", "fwd.eml"})
+		}
 	}
 
 	if g.bigLeaf > 0 && !p.IsMultipart() && !p.IsMessage() && g.rng.Intn(4) == 0 {
@@ -357,6 +366,14 @@ func (g *mimeGen) message(depth int, marker string) *mimePart {
 
 	for i := 0; i < g.rng.Intn(4); i++ {
 		fields = append(fields, g.field(fmt.Sprintf("X-Custom-%d", g.rng.Intn(3)), g.words(1+g.rng.Intn(8))))
+	}
+
+	if g.emptyFields && g.rng.Intn(3) == 0 {
+		for i := 0; i < 1+g.rng.Intn(2); i++ {
+			name := fmt.Sprintf("X-Empty-%d", g.rng.Intn(3))
+			raw := name + ":" + []string{"", "", " ", "\t"}[g.rng.Intn(4)] + g.nl
+			fields = append(fields, hdrField{Name: name, Raw: []byte(raw)})
+		}
 	}
 
 	// Received-like duplicates
